@@ -32,16 +32,19 @@ def rest_configs(m, chunk):
         rph = [ANG[r], ANG[p], ANG[h]]
         dt = 0.125
         t = (0.0, 1024.0)[k % 2] + np.arange(0, 1.01, dt)
+        if k % 4 >= 2:            # irregular sampling with a gap (dyadic intervals; the first interval is not the mean one): seeded change C03_3
+            t = (0.0, 1024.0)[k % 2] + np.hstack([[0.0], np.cumsum([0.0625, 0.125, 0.25, 0.125, 0.1875, 0.5, 0.0625, 0.125])])
+        dts = np.diff(t)[:, None]
         try:
             g = float(earth.gravity(lat, alt))
             for typ in ("rate", "increment"):
                 traj, imu = sim.generate_imu(t, np.tile([lat, lon, alt], (len(t), 1)), np.tile(rph, (len(t), 1)), sensor_type=typ)
-                sc = 1.0 if typ == "rate" else dt
+                sc = 1.0 if typ == "rate" else dts                  # an increment reading is the integral over ITS OWN sampling interval
                 G = imu[GY].values[1:]; A = imu[AC].values[1:]
-                if np.abs(G - earth.RATE * sc * np.array(gy, float)).max() > 1e-12 * sc:
-                    out.append((k, "at rest at lat %g with rph %s the %s gyros read %s, Earth rate is %s x RATE" % (lat, rph, typ, np.round(G[0] / (earth.RATE * sc), 6).tolist(), gy))); break
-                if np.abs(A - g * sc * np.array(ac, float)).max() > 2e-5 * sc:
-                    out.append((k, "at rest at lat %g with rph %s the %s accelerometers read %s x g, the reaction to gravity is %s x g" % (lat, rph, typ, np.round(A[0] / (g * sc), 6).tolist(), ac))); break
+                if (np.abs(G - earth.RATE * sc * np.array(gy, float)) > 1e-12 * sc).any():
+                    out.append((k, "at rest at lat %g with rph %s the %s gyros read %s (first interval; sampling %s), Earth rate is %s x RATE" % (lat, rph, typ, np.round(G[0] / (earth.RATE * np.ravel(sc)[0]), 6).tolist(), "irregular" if k % 4 >= 2 else "uniform", gy))); break
+                if (np.abs(A - g * sc * np.array(ac, float)) > 2e-5 * sc).any():
+                    out.append((k, "at rest at lat %g with rph %s the %s accelerometers read %s x g (worst interval; sampling %s), the reaction to gravity is %s x g" % (lat, rph, typ, np.round((A / (g * sc))[np.abs(A / (g * sc) - np.array(ac, float)).max(axis=1).argmax()], 6).tolist(), "irregular" if k % 4 >= 2 else "uniform", ac))); break
                 if len(imu) != len(t) or list(imu.index) != list(t) or list(traj.index) != list(t):
                     out.append((k, "generate_imu returns %d / %d rows for %d time points" % (len(traj), len(imu), len(t)))); break
                 if np.abs(traj[['VN', 'VE', 'VD']].values).max() > 1e-6 or np.abs(traj[['lat', 'lon', 'alt']].values - [lat, lon, alt]).max() > 1e-9:
